@@ -118,6 +118,7 @@ structure DState where
   taint    : List (Nat × String) := []       -- known cause of a bad read
   lastEv   : List (Nat × String) := []
   viaTemp  : List Nat := []                  -- referenced through VolumeManager.StoreSector (no fsync before the reference)
+  parked   : Option (Nat × Nat × Nat) := none -- a ResizeVolume call stopped after it read the size: volume, target, size read
   -- statistics
   hists : Nat := 0
   ops : Nat := 0
@@ -255,12 +256,16 @@ def reclaimMonitors (d : DState) (pre : State) (h : Nat) (which : List String) (
     then [mono "reclaim_exact/slots" s!"h={h},want={showStrList want},got={showStrList got}"] else []
   v1 ++ v2 ++ v3 ++ v4
 
-/-- slots a prune cleared must hold unreferenced sectors (C02/C08) -/
+/-- slots a prune cleared must hold sectors that are unreferenced and were not uploaded
+(acknowledged) within the prune interval (C02/C08) -/
 def pruneMonitor (d : DState) (ob : Obs) : List Verdict :=
   let cleared := d.iOcc.filter fun t => !ob.occ.contains t
   match cleared.find? (fun t => obsRefd ob t.2.2) with
   | some t => [mono "prune_only_unreferenced" s!"cleared slot {tripleStr t} of a referenced sector"]
-  | none => []
+  | none =>
+    match cleared.find? (fun t => d.acked.any (·.1 == t.2.2)) with
+    | some t => [mono "prune_only_unreferenced" s!"cleared slot {tripleStr t} of a sector uploaded within the prune interval"]
+    | none => []
 
 /-! ### stepping -/
 
@@ -348,7 +353,7 @@ def step (d : DState) (l : Line) : DState × List Verdict :=
     let cache := (getNat l.args "cache").getD 0
     let mode := (getStr l.args "mode").getD "meta"
     ({ d with m := init cache, mode := mode, dead := false, iOcc := [], iR1 := [], iR2 := [], iTmp := [], iLost := 0,
-              bufMap := [], acked := [], exempt := [], taint := [], lastEv := [], viaTemp := [], hists := d.hists + 1 }, [])
+              bufMap := [], acked := [], exempt := [], taint := [], lastEv := [], viaTemp := [], parked := none, hists := d.hists + 1 }, [])
   else if d.dead then (d, [])
   else
   let a := l.args
@@ -583,6 +588,7 @@ def step (d : DState) (l : Line) : DState × List Verdict :=
       let pre := d
       let (d, r) := stepM d (.vmResize v n moves)
       let movedRoots := (pre.iOcc.filter fun t => t.1 == v && moves.any (fun mv => mv.fromI == t.2.1 && mv.ok)).map (·.2.2)
+      let d := noteEv d ((pre.iOcc.filter fun t => t.1 == v).map (·.2.2)) "resize"
       let d := noteEv d movedRoots "migrate"
       let d := { d with migrations := d.migrations + 1, moved := d.moved + movedRoots.length }
       conclude d l (resVerdict "meta/res" r res) fun ob =>
@@ -651,8 +657,87 @@ def step (d : DState) (l : Line) : DState × List Verdict :=
         (d, [])
     | _, _ => (d, [.badline "mutate"])
   | "sync" =>
+    -- ground truth from the data files: slots written after the last fsync of their file returned
+    let dirtyP := ((getTuples o "unsynced").getD []).filterMap fun t => match t with | [v, i] => some (v, i) | _ => none
+    let unexplained := dirtyP.filter fun p =>
+      match d.iOcc.find? (fun t => t.1 == p.1 && t.2.1 == p.2) with
+      | some t => (getA t.2.2 d.taint) != some "sync_flag_race"    -- a steered race is reported by the read that follows
+      | none => false                                               -- a free slot holds nobody's data
+    let sm : List Verdict := if res == "ok" && !unexplained.isEmpty then
+        [mono "sync_durable" s!"Sync returned, not fsynced: {unexplained.map fun p => s!"{p.1}:{p.2}"}"] else []
     let (d, _) := stepM d .sync
-    conclude { d with acked := d.acked.map fun (r, _) => (r, true) } l (cmp "meta/res" "ok" (implRes res)) (lostMonitor d false)
+    conclude { d with acked := d.acked.map fun (r, _) => (r, true) } l (if sm.isEmpty then cmp "meta/res" "ok" (implRes res) else sm) (lostMonitor d false)
+  | "syncrace" =>
+    -- RPC S calls Sync(); RPC B's upload into volume v lands after S's fsync of v returned (see the harness)
+    match getNat a "v", getNat a "r", getStrList o "kinds", (getStrList o "locs").bind (·.mapM parseLoc), getNat o "buf" with
+    | some v, some r0, some kinds, some locs, some buf0 =>
+      let attempt (acc : DState × Res) (x : Nat × String × Option (Nat × Nat)) : DState × Res :=
+        let d := acc.1
+        let k := x.1; let kind := x.2.1; let loc := x.2.2
+        let r := r0 + k
+        let (s1, b) := newBuf d.m (.dataOf r)
+        let d := { d with m := s1, bufMap := (buf0 + k, b) :: d.bufMap }
+        let write (d : DState) : DState × Res :=
+          let (s2, r1) := reserve d.m 0 r b loc
+          let (s3, r2) := match r1 with
+            | .placed _ _ => let (s3, rf) := finishD d s2 0 true; (s3, match rf with | .ok => r1 | x => x)
+            | _ => (s2, r1)
+          let d := { d with m := s3, stores := d.stores + 1 }
+          let d := match r2 with | .placed _ _ | .exist => noteEv (ack d r) [r] "write" | _ => d
+          (d, r2)
+        if kind == "n" then
+          let (d, _) := stepM d .sync
+          write d
+        else
+          let others := d.m.changed.filter (· != v)
+          let (d, _) := stepM d .syncBegin
+          let d := others.foldl (fun d x =>
+            if d.f.syncSerial then (stepM (stepM d (.syncClear x)).1 (.syncFsync x)).1
+            else (stepM (stepM d (.syncFsync x)).1 (.syncClear x)).1) d
+          let (d, rw) :=
+            if d.f.syncSerial then
+              let d := (stepM (stepM d (.syncClear v)).1 (.syncFsync v)).1
+              write d
+            else if kind == "r" then
+              let (d, _) := stepM d (.syncFsync v)
+              let (d, rw) := write d
+              ((stepM d (.syncClear v)).1, rw)
+            else
+              let d := (stepM (stepM d (.syncFsync v)).1 (.syncClear v)).1
+              write d
+          let (d, _) := stepM d .syncEnd
+          let d := if kind == "r" then { d with taint := setA r "sync_flag_race" d.taint } else d
+          (d, rw)
+      let idx := List.range kinds.length
+      let (d, rlast) := (idx.zip (kinds.zip locs)).foldl attempt (d, Res.ok)
+      let want := match rlast with | .placed _ _ => "placed" | .exist => "exist" | x => resStr x
+      conclude d l (cmp "meta/res" want (implRes res)) (lostMonitor d false)
+    | _, _, _, _, _ => (d, [.badline "syncrace"])
+  | "resizepark" =>
+    match getNat a "v", getNat a "n", getNat o "parked" with
+    | some v, some n, some 1 =>
+      conclude { d with parked := some (v, n, (getNat o "stale").getD 0) } l [] (lostMonitor d false)
+    | some v, some n, some _ =>
+      match parseMoves o "moves" with
+      | some moves =>
+        let pre := d
+        let (d, r) := stepM d (.vmResize v n moves)
+        let d := noteEv d ((pre.iOcc.filter fun t => t.1 == v).map (·.2.2)) "resize"
+        conclude d l (resVerdict "meta/res" r res) (lostMonitor pre false)
+      | none => (d, [.badline "resizepark moves"])
+    | _, _, _ => (d, [.badline "resizepark"])
+  | "resizego" =>
+    match d.parked, parseMoves o "moves" with
+    | some (v, n, stale), some moves =>
+      let pre := d
+      let actual := (findVol v d.m.vols).map (·.total)
+      let (d, r) := stepM d (.vmResizeStale stale v n moves)
+      let inV := (pre.iOcc.filter fun t => t.1 == v).map (·.2.2)
+      let d := noteEv d inV "resize"
+      let d := if actual != some stale then { d with taint := inV.foldl (fun t r => setA r "resize_stale" t) d.taint } else d
+      conclude { d with parked := none } l (resVerdict "meta/res" r res) (lostMonitor pre false)
+    | none, _ => conclude d l (cmp "meta/res" "none" (implRes res)) (lostMonitor d false)
+    | _, _ => (d, [.badline "resizego"])
   | "cache" =>
     match getNat a "n" with
     | some n => let (d, _) := stepM d (.resizeCache n); (d, [])
@@ -666,7 +751,8 @@ def step (d : DState) (l : Line) : DState × List Verdict :=
       let unsynced := (d.iOcc.filter fun t => lostP.contains (t.1, t.2.1)).map (·.2.2)
       let d := { d with taint := pend.foldl (fun t r => setA r "crash_reupload" t) d.taint }
       let d := { d with taint := unsynced.foldl (fun t r =>
-          setA r (if d.viaTemp.contains r then "crash_unsynced_temp" else "crash_reupload") t) d.taint }
+          if (getA r t).isSome then t   -- already explained (e.g. a steered Sync race)
+          else setA r (if d.viaTemp.contains r then "crash_unsynced_temp" else "crash_reupload") t) d.taint }
       let (d, r) := stepM d (.crash lostP)
       let d := { d with acked := [], crashes := d.crashes + 1, bufMap := d.bufMap }
       let d := noteEv d ((d.iOcc.map (·.2.2)).filter fun r => (getA r d.taint).isNone) "crash"
